@@ -8,6 +8,19 @@ use std::panic;
 use bitcask::net::frame::{Error, Frame};
 
 fn hex(b: &[u8]) -> String { b.iter().map(|x| format!("{:02x}", x)).collect() }
+/// JSON string literal (Rust's {:?} escapes are not JSON)
+pub fn js(s: &str) -> String {
+    let mut o = String::from("\"");
+    for c in s.chars() {
+        match c {
+            '"' => o.push_str("\\\""), '\\' => o.push_str("\\\\"), '\n' => o.push_str("\\n"), '\r' => o.push_str("\\r"), '\t' => o.push_str("\\t"),
+            c if (c as u32) < 0x20 || (c as u32) > 0x7e => o.push_str(&format!("\\u{:04x}", (c as u32).min(0xffff))),
+            c => o.push(c),
+        }
+    }
+    o.push('"');
+    o
+}
 fn unhex(s: &str) -> Vec<u8> { (0..s.len() / 2).map(|i| u8::from_str_radix(&s[2 * i..2 * i + 2], 16).unwrap()).collect() }
 
 #[derive(Debug)]
@@ -355,7 +368,7 @@ fn server_search(seed: u64) {
             });
             let mut got = Vec::new();
             let mut buf = vec![0u8; 65536];
-            let deadline = tokio::time::Instant::now() + std::time::Duration::from_secs(20);
+            let deadline = tokio::time::Instant::now() + std::time::Duration::from_secs(5);
             while got.len() < want.len() {
                 match tokio::time::timeout_at(deadline, rd.read(&mut buf)).await {
                     Ok(Ok(0)) => break,
@@ -377,8 +390,8 @@ fn server_search(seed: u64) {
             Ok(g) if g != want => {
                 // first differing reply
                 let mut i = 0; while i < g.len() && i < want.len() && g[i] == want[i] { i += 1; }
-                println!("{{\"found\": true, \"kind\": \"server-replies\", \"props\": \"C06\", \"seed\": {}, \"round\": {}, \"chunk\": {}, \"history\": {:?}, \"observed\": {:?}, \"expected\": {:?}}}",
-                         seed, round, if chunk == usize::MAX { 0 } else { chunk }, hist.join("; "), format!("{} reply bytes; first difference at byte {}: ...{}", g.len(), i, show(&g[i.saturating_sub(20)..])), format!("{} reply bytes: ...{}", want.len(), show(&want[i.saturating_sub(20)..])));
+                println!("{{\"found\": true, \"kind\": \"server-replies\", \"props\": \"C06\", \"seed\": {}, \"round\": {}, \"chunk\": {}, \"history\": {}, \"observed\": {}, \"expected\": {}}}",
+                         seed, round, if chunk == usize::MAX { 0 } else { chunk }, js(&hist.join("; ")), js(&format!("{} reply bytes; first difference at byte {}: ...{}", g.len(), i, show(&g[i.saturating_sub(20)..]))), js(&format!("{} reply bytes: ...{}", want.len(), show(&want[i.saturating_sub(20)..]))));
                 std::process::exit(0);
             }
             Ok(_) => {}
@@ -398,7 +411,7 @@ mod store {
     fn b(s: &str) -> Bytes { Bytes::copy_from_slice(s.as_bytes()) }
     /// `props`: the properties whose statement the observation contradicts
     pub fn report(kind: &str, props: &str, history: &str, observed: String, expected: &str) -> ! {
-        println!("{{\"found\": true, \"kind\": \"{}\", \"props\": {:?}, \"history\": {:?}, \"observed\": {:?}, \"expected\": {:?}}}", kind, props, history, observed, expected);
+        println!("{{\"found\": true, \"kind\": \"{}\", \"props\": {}, \"history\": {}, \"observed\": {}, \"expected\": {}}}", kind, crate::js(props), crate::js(history), crate::js(&observed), crate::js(expected));
         std::process::exit(0)
     }
     fn conf(dir: &std::path::Path, max: u64) -> Config {
